@@ -799,6 +799,60 @@ Proof.
   unfold serving in Hsc. rewrite Hn, Ew in Hsc. cbn in Hsc. rewrite andb_false_r in Hsc. discriminate.
 Qed.
 
+(* ---- the pid file of a serving daemon ---- *)
+(* in the property's own domain (starts and SIGKILLs) a daemon at service still has the pid file it wrote *)
+Theorem pidfile_kept : forall hist s0 sched s p, run init hist = Some s0 -> quiet s0 ->
+  starts_and_crashes sched = true -> run s0 sched = Some s -> at_serve s p = true -> has_pidfile s p = true.
+Proof.
+  intros hist s0 sched s p Hh Q Hsc Hr Ha.
+  pose proof (reach_SInv _ _ _ _ Hh Q Hsc Hr) as I. destruct (at_serve_inv _ _ Ha) as [Hp Hpc].
+  destruct (s_pid _ I _ Hp ltac:(lia)) as (f & Hf & Hc). unfold has_pidfile. rewrite Hf. now apply opt_is_true.
+Qed.
+
+(* finding F-C15-pidfile-late-unlink: with a clean stop overlapping a start the invariant fails although the lock
+   protocol is followed: B is the one live daemon, holds the lock of the named lock file, listens on the named
+   socket — and its pid file has been removed by the stopping A, which has exited successfully *)
+Definition pidfile_lost (s : state) (a b : nat) : bool :=
+  at_serve s b && negb (has_pidfile s b) && negb (serving s b)
+  && match names s NPid with None => true | Some _ => false end
+  && match names s NLock with Some i => opt_is (lockown s i) b && opt_is (lockfd (procs s b)) i | None => false end
+  && match names s NSock with Some j => opt_is (listener s j) b && opt_is (sockfd (procs s b)) j | None => false end
+  && Nat.eqb (status_code (st (procs s a))) 3.
+
+Lemma late_unlink_computed :
+  match run init (late_unlink_sched 0 1) with Some s => pidfile_lost s 0 1 | None => false end = true.
+Proof. vm_compute. reflexivity. Qed.
+
+Theorem pidfile_late_unlink_refuted : exists sched s a b,
+  run init sched = Some s /\ a <> b /\ st (procs s a) = Exited /\
+  at_serve s b = true /\ holder s b /\
+  (exists j, names s NSock = Some j /\ listener s j = Some b /\ sockfd (procs s b) = Some j) /\
+  names s NPid = None /\ has_pidfile s b = false /\ serving s b = false.
+Proof.
+  pose proof late_unlink_computed as H.
+  destruct (run init (late_unlink_sched 0 1)) as [s|] eqn:E; [|discriminate].
+  exists (late_unlink_sched 0 1), s, 0, 1. split; [exact E|]. clear E. split; [discriminate|].
+  unfold pidfile_lost in H.
+  apply andb_true_iff in H; destruct H as [H K].
+  apply andb_true_iff in H; destruct H as [H K0].
+  apply andb_true_iff in H; destruct H as [H K1].
+  apply andb_true_iff in H; destruct H as [H K2].
+  apply andb_true_iff in H; destruct H as [H K3].
+  apply andb_true_iff in H; destruct H as [H K4].
+  apply negb_true_iff in K4. apply negb_true_iff in K3.
+  destruct (names s NPid) eqn:En; [discriminate|].
+  destruct (names s NLock) as [i|] eqn:El; [|discriminate].
+  destruct (names s NSock) as [j|] eqn:Es; [|discriminate].
+  apply andb_true_iff in K1; destruct K1 as [K1a K1b]. apply andb_true_iff in K0; destruct K0 as [K0a K0b].
+  assert (Hopt : forall o v, opt_is o v = true -> o = Some v).
+  { intros [x|] v Hx; cbn in Hx; [apply Nat.eqb_eq in Hx; now subst|discriminate]. }
+  split.
+  - destruct (st (procs s 0)); cbn in K; try discriminate; reflexivity.
+  - split; [exact H|]. split.
+    + exists i. repeat split; auto.
+    + split; [exists j; repeat split; auto|]. repeat split; auto.
+Qed.
+
 Corollary single_holder_needs_no_clean_stop :
   ~ (forall sched s, run init sched = Some s -> forall p q, past_setlk s p -> past_setlk s q -> p = q).
 Proof.
